@@ -126,6 +126,10 @@ def unfold_e(eng, st, e):
     """defining equations of the per-expression views at e"""
     st.fact(ALLV(e) == Concat(ARGC(eargs(e)), body(e)))
     st.fact(CONT(e) == CONTF(ALLV(e), pw(e)))
+    # class invariant of TexArgs lifted to published expressions: an argument list holds groups and commands only
+    # (every TexArgs mutator ensures `allargs`, contracts/texargs_c.py)
+    from .tree import AA
+    st.fact(AA(eargs(e)))
     F_ARGC.use(st, ())
     F_CONTF.use(st, (pw(e),))
     F_KIDS.use(st, ())
@@ -167,19 +171,54 @@ def _pw(ctx, e):
 
 
 # ---------------------------------------------------------------------- attribute access on published expressions
+def dispatch_by_class(eng, st, v, attr, node, call):
+    """dynamic dispatch of a method / property on a published expression: the classes of the tree (KINDS) are grouped
+    by the function the attribute resolves to in the real class hierarchy; one path per group.  A subclass that
+    overrides a view is therefore seen (its function needs its own contract, or the caller is out of reach)."""
+    groups = {}
+    for k, cls in enumerate(KINDS):
+        if not cls.startswith('data.'):
+            continue
+        mem = eng.repo.lookup_member(cls, attr)
+        if mem is None or mem[0] != 'func':
+            continue
+        groups.setdefault(mem[1], []).append(k)
+    outs = []
+    rest = st
+    for q, ks in sorted(groups.items()):
+        if rest is None:
+            break
+        cond = Or(*[kind(v.z) == k for k in ks])
+        # kinds beyond KINDS (classes the tree model does not name) take the base-class function
+        if q == 'data.TexExpr.' + attr:
+            cond = Or(cond, kind(v.z) >= len(KINDS), kind(v.z) < 0)
+        t, rest = eng.split(rest, cond)
+        if t is None:
+            continue
+        if call:
+            outs += eng.call_function(q, [v], {}, t, node)
+        else:
+            outs.append(('val', t, Val('func', None, qual=q, bound=v)))
+    if rest is not None:        # raw str / token leaves have no such attribute
+        outs.append(('raise', rest, 'AttributeError'))
+    return outs
+
+
 def views_attr_hook(eng, what, payload, st):
     if what == 'getattr':
         v, attr, node = payload
         if v.ty != 'E':
             return None
         if attr == 'args':
+            from .tree import AA
+            st.fact(AA(eargs(v.z)))       # class invariant of TexArgs (see unfold_e)
             return [('val', st, Val('seq', eargs(v.z), elem='E', texargs=True))]
         if attr == '_contents':
             return [('val', st, VSeq(body(v.z), 'E'))]
         if attr == 'preserve_whitespace':
             return [('val', st, VB(pw(v.z)))]
         if attr in ('all', 'contents', 'children'):
-            return eng.call_function('data.TexExpr.' + attr, [v], {}, st, node)
+            return dispatch_by_class(eng, st, v, attr, node, call=True)
         if attr == '_text':      # only TexText has it (the code reads it under isinstance(content, TexText))
             untext_facts(st, v.z)
             t, f = eng.split(st, kind(v.z) == kind_of('data.TexText'))
@@ -200,21 +239,22 @@ REG.attr_hooks.insert(0, views_attr_hook)
 
 # ---------------------------------------------------------------------- TexExpr.all / contents / children
 _ETY = {'self': 'E'}
+_EREQ = [A('an-expression', 'isexpr(self)')]
 REG.add(Contract(
-    'data.TexExpr.all', types=_ETY, result='seq[E]', generator=True, props=['C04', 'C03', 'C17'],
+    'data.TexExpr.all', types=_ETY, result='seq[E]', generator=True, props=['C04', 'C03', 'C17'], requires=_EREQ,
     ensures=[P(['C04', 'C03'], 'arguments-contents-then-body', 'result == ALLV(self)')],
     loops={0: Loop(invariant=[A('groups-done', '_out == ARGC(eargs(self)[:_k])')]),
            1: Loop(invariant=[A('group-prefix', '_out == ARGC(eargs(self)[:_k0]) + CONT(arg)[:_k]')]),
            2: Loop(invariant=[A('body-prefix', '_out == ARGC(eargs(self)) + body(self)[:_k]')])}))
 
 REG.add(Contract(
-    'data.TexExpr.contents', types=_ETY, result='seq[E]', generator=True, props=['C04', 'C03', 'C17'],
+    'data.TexExpr.contents', types=_ETY, result='seq[E]', generator=True, props=['C04', 'C03', 'C17'], requires=_EREQ,
     ensures=[P(['C04', 'C03'], 'all-without-whitespace-only-text', 'result == CONTF(ALLV(self), pw(self))'),
              A('is-CONT', 'result == CONT(self)')],
     loops={0: Loop(invariant=[A('prefix', '_out == CONTF(ALLV(self)[:_k], pw(self))')])}))
 
 REG.add(Contract(
-    'data.TexExpr.children', types=_ETY, result='seq[E]', props=['C04', 'C03', 'C17'],
+    'data.TexExpr.children', types=_ETY, result='seq[E]', props=['C04', 'C03', 'C17'], requires=_EREQ,
     ensures=[P(['C04', 'C03'], 'commands-and-environments-of-contents', 'result == KIDS(CONT(self))')]))
 
 
@@ -682,13 +722,7 @@ def search_attr_hook(eng, what, payload, st):
         if v.ty != 'E':
             return None
         if attr == '__match__':
-            t, f = eng.split(st, isenv_z(eng, v.z))       # dynamic dispatch on the class of the expression
-            outs = []
-            if t is not None:
-                outs.append(('val', t, Val('func', None, qual='data.TexEnv.__match__', bound=v)))
-            if f is not None:
-                outs.append(('val', f, Val('func', None, qual='data.TexExpr.__match__', bound=v)))
-            return outs
+            return dispatch_by_class(eng, st, v, attr, node, call=False)    # dynamic dispatch on the class
         if attr in ('begin', 'end'):
             delim_facts(eng, st, v.z)
             return [('val', st, VS((ebegin if attr == 'begin' else eend)(v.z)))]
@@ -832,3 +866,27 @@ REG.add(Contract(
 REG.add(Contract(
     'data.TexNode.count', case='names', types=_SLTY, result='int', props=['C03', 'C17'], requires=[_NOBR],
     ensures=[P(['C03'], 'length-of-find_all', 'result == len(FOUNDL(DESC(self), name))')]))
+
+
+# ---------------------------------------------------------------------- well-formedness preconditions and L-desc
+from pyvc.contracts import Clause as _Clause
+for _cs in REG.contracts.values():
+    for _c in _cs:
+        if _c.types.get('self') == 'node' and not any(cl.label == 'a-node-of-an-expression' for cl in _c.requires):
+            _c.requires.append(A('a-node-of-an-expression', 'isexpr(nexpr(self))'))
+
+for _q in ('data.TexNode.descendants', 'data.TexNode.__descendants'):
+    REG.contracts[_q][0].hooks.append(_defined_as(lambda n: DESC(n.z)))
+
+
+def desc_item_hook(eng, what, payload, st):
+    if what == 'seq-item':
+        xs, k, item = payload
+        z = xs.a.get('defined_as') if xs.ty == 'seq' else None
+        if z is not None and z3.is_app(z) and z.decl().eq(DESC):
+            # L-desc (induction over the closure equation with L-map): a wrapped element of DESC(n) wraps an expression
+            st.fact(Implies(Item.is_wrapped(xs.z[k]), isexpr_z(eng, nexpr(Item.node(xs.z[k])))))
+    return None
+
+
+REG.attr_hooks.insert(0, desc_item_hook)
